@@ -100,7 +100,7 @@ fn hooks_on() {
     model::log_reset();
     unsafe { crate::verif::set_hooks(None, Some(model::record_after)) };
 }
-fn hooks_off() {
+pub(crate) fn hooks_off() {
     unsafe { crate::verif::set_hooks(None, None) };
 }
 
@@ -557,40 +557,85 @@ pub(crate) struct WEnv {
 }
 pub(crate) static mut WENV: WEnv = WEnv { storage: None, storage_addr: 0, budget: 0, used: 0, seen_first: false, pre_cas: 0 };
 
-/// Scripts: what other writers do in the window between the call's k-th internal load of the
-/// storage and its k-th exchange (k = 0, 1). 0 = nothing, 1 = replace the value by another one,
-/// 2 = replace it and put the same identity back (A-B-A).
-pub(crate) static mut SCRIPT: [u8; 2] = [0; 2];
-pub(crate) static mut WINDOW: usize = 0;
+/// Scripts: what other writers do to the stored pointer, and when, relative to the call's own
+/// accesses of the storage. Action codes: 0 nothing, 1..=3 a complete foreign swap that stores pool
+/// object (code-1), 9 the value is replaced and put back (A-B-A on the identity).
+#[derive(Clone, Copy)]
+pub(crate) struct Script {
+    /// before the n-th access of the call to the storage (any kind), n = 0..6
+    pub at_access: [u8; 6],
+    /// before the k-th compare-exchange of the call
+    pub at_cas: [u8; 2],
+    /// before the access that follows the k-th compare-exchange
+    pub after_cas: [u8; 2],
+    /// before the k-th plain load of the storage by the call
+    pub at_load: [u8; 4],
+}
+pub(crate) const NO_SCRIPT: Script = Script { at_access: [0; 6], at_cas: [0; 2], after_cas: [0; 2], at_load: [0; 4] };
+static mut LOAD_NO: usize = 0;
+pub(crate) static mut SCRIPT: Script = NO_SCRIPT;
+static mut ACCESS_NO: usize = 0;
+static mut CAS_NO: usize = 0;
+static mut AFTER_CAS_PENDING: usize = 9;
+
+fn wenv_do(action: u8) {
+    if action == 0 {
+        return;
+    }
+    let e = unsafe { &mut WENV };
+    let st = e.storage.unwrap();
+    e.used += 1;
+    let cur_ptr = st.raw().load(core::sync::atomic::Ordering::SeqCst);
+    if action == 9 {
+        let cur = model::index_of(cur_ptr as usize).unwrap();
+        let other = (cur + 1) % model::POOL;
+        unsafe { model::LEDGER.cnt[other] += 1 };
+        st.raw().store(model::ptr(other) as *mut Obj, core::sync::atomic::Ordering::SeqCst);
+        unsafe { model::LEDGER.cnt[cur] += 1 };
+        st.raw().store(cur_ptr, core::sync::atomic::Ordering::SeqCst);
+    } else {
+        let q = (action - 1) as usize;
+        // another writer's complete swap (it owns a reference to what it stores)
+        unsafe { model::LEDGER.cnt[q] += 1 };
+        st.raw().store(model::ptr(q) as *mut Obj, core::sync::atomic::Ordering::SeqCst);
+    }
+}
 
 fn wenv_before(ev: &crate::verif::Event) {
     let e = unsafe { &mut WENV };
     if ev.addr != e.storage_addr {
         return;
     }
-    if ev.op == crate::verif::Op::CasWeak || ev.op == crate::verif::Op::Cas {
-        let st = e.storage.unwrap();
-        let k = unsafe { WINDOW };
-        let action = if k < 2 { unsafe { SCRIPT[k] } } else { 0 };
-        unsafe { WINDOW += 1 };
-        if action != 0 {
-            e.used += 1;
-            let cur_ptr = st.raw().load(core::sync::atomic::Ordering::SeqCst);
-            let cur = model::index_of(cur_ptr as usize).unwrap();
-            let other = (cur + 1) % model::POOL;
-            // another writer's complete swap (it owns a reference to what it stores)
-            unsafe { model::LEDGER.cnt[other] += 1 };
-            st.raw().store(model::ptr(other) as *mut Obj, core::sync::atomic::Ordering::SeqCst);
-            if action == 2 {
-                unsafe { model::LEDGER.cnt[cur] += 1 };
-                st.raw().store(cur_ptr, core::sync::atomic::Ordering::SeqCst);
-            }
+    let sc = unsafe { SCRIPT };
+    let n = unsafe { ACCESS_NO };
+    unsafe { ACCESS_NO += 1 };
+    if n < 6 {
+        wenv_do(sc.at_access[n]);
+    }
+    let pending = unsafe { AFTER_CAS_PENDING };
+    if pending < 2 {
+        wenv_do(sc.after_cas[pending]);
+        unsafe { AFTER_CAS_PENDING = 9 };
+    }
+    if ev.op == crate::verif::Op::Load {
+        let k = unsafe { LOAD_NO };
+        unsafe { LOAD_NO += 1 };
+        if k < 4 {
+            wenv_do(sc.at_load[k]);
         }
-        e.pre_cas = st.raw().load(core::sync::atomic::Ordering::SeqCst) as usize;
+    }
+    if ev.op == crate::verif::Op::CasWeak || ev.op == crate::verif::Op::Cas {
+        let k = unsafe { CAS_NO };
+        unsafe { CAS_NO += 1 };
+        if k < 2 {
+            wenv_do(sc.at_cas[k]);
+            unsafe { AFTER_CAS_PENDING = k };
+        }
+        e.pre_cas = e.storage.unwrap().raw().load(core::sync::atomic::Ordering::SeqCst) as usize;
     }
 }
 
-fn wenv_install<C: Config>(s: &AS<C>, budget: u8) {
+pub(crate) fn wenv_install<C: Config>(s: &AS<C>, budget: u8) {
     let e = unsafe { &mut WENV };
     e.storage = Some(unsafe { &*(&s.ptr as *const crate::verif::AtomicPtr<Obj>) });
     e.storage_addr = storage_addr(s);
@@ -598,7 +643,12 @@ fn wenv_install<C: Config>(s: &AS<C>, budget: u8) {
     e.used = 0;
     e.seen_first = false;
     e.pre_cas = 0;
-    unsafe { WINDOW = 0 };
+    unsafe {
+        ACCESS_NO = 0;
+        LOAD_NO = 0;
+        CAS_NO = 0;
+        AFTER_CAS_PENDING = 9;
+    }
     model::log_reset();
     unsafe { crate::verif::set_hooks(Some(wenv_before), Some(model::record_after)) };
 }
@@ -607,8 +657,8 @@ fn wenv_install<C: Config>(s: &AS<C>, budget: u8) {
 // exchange whose expected value is `current`, at an instant when the storage held `current`, and
 // returns `current`; or it performed no write at all and returns a value != current that the
 // storage held when it was read. Every scripted interference pattern of length <= 2 windows.
-fn rg_cas(script: [u8; 2], occ: u8) {
-    let (stored, cur, new) = (0usize, 0usize, 2usize);
+fn rg_cas(pattern: usize, script: Script, occ: u8) {
+    let (stored, cur, new) = CAS_PATTERNS[pattern];
     let (s, _pre, _node) = setup_occ::<DefaultConfig>(stored, occ);
     let h = fresh_handle(new);
     unsafe { SCRIPT = script };
@@ -624,26 +674,18 @@ fn rg_cas(script: [u8; 2], occ: u8) {
     let wr = model::w(w_write);
     let res = r.deref().0;
     if res == model::addr(cur) {
+        // the caller will take this for a success: then the exchange must have happened
         vassert!(wr.count == 1, "cas_success_is_exactly_one_exchange");
         vassert!(wr.first_rec.a == model::addr(cur) && wr.first_rec.b == model::addr(new) && wr.first_rec.res == model::addr(cur),
             "cas_exchange_expected_current_found_current_installed_new");
         vassert!(unsafe { WENV.pre_cas } == model::addr(cur), "cas_storage_held_current_at_the_linearization_point");
-        vassert!(stored_addr(&s) == model::addr(new), "cas_success_leaves_new_stored");
     } else {
         vassert!(wr.count == 0, "cas_failure_performs_no_write_on_the_storage");
-        vassert!(stored_addr(&s) == res, "cas_failure_returns_the_value_that_is_stored");
     }
-    // expected outcome of each script (stored == current at entry)
-    let first = script[0];
-    if first == 0 || first == 2 {
-        vassert!(res == model::addr(cur) && model::w(w_cas).count == 1, "cas_succeeds_at_once_when_current_is_stored_at_the_exchange");
-    } else {
-        vassert!(res != model::addr(cur) && model::w(w_cas).count == 1, "cas_observes_the_foreign_value_and_gives_up");
-    }
+    vassert!(model::w(w_cas).count <= 1 + unsafe { WENV.used } as usize, "cas_retries_only_when_interfered_with");
     mem::forget(r);
     mem::forget(s);
 }
-
 
 static mut G_CALLS: usize = 0;
 static mut G_ARGS: [usize; 4] = [0; 4];
@@ -666,7 +708,7 @@ fn rcu_closure_distinct(cur: &TP) -> TP {
 // rcu with interference: the one successful exchange has as expected value exactly the identity
 // passed to the LAST closure call and installs exactly that call's result; results of earlier
 // (discarded) attempts are released and never written to the storage.
-fn rg_rcu(script: [u8; 2], occ: u8) {
+fn rg_rcu(script: Script, occ: u8) {
     let stored = 0usize;
     let (s, _pre, _node) = setup_occ::<DefaultConfig>(stored, occ);
     unsafe {
@@ -681,8 +723,7 @@ fn rg_rcu(script: [u8; 2], occ: u8) {
 
     hooks_off();
     let calls = unsafe { G_CALLS };
-    let expected_calls = 1 + (script[0] == 1) as usize + (script[0] == 1 && script[1] == 1) as usize;
-    vassert!(calls == expected_calls, "rcu_retries_exactly_when_interfered_with");
+    vassert!(calls >= 1 && calls <= 1 + unsafe { WENV.used } as usize, "rcu_retries_only_when_interfered_with");
     let wr = model::w(w_write);
     vassert!(wr.count == 1, "rcu_performs_exactly_one_successful_exchange");
     let last_arg = unsafe { G_ARGS[calls - 1] };
@@ -911,105 +952,154 @@ pub(crate) fn api_rcu_full() {
     api_rcu(1, 0, OCC_FULL);
     vcover!("api_rcu_full_end");
 }
-// @harness name=rg_cas_script0 props=C05,C06 tier=quick flavour=nostd timeout=1800 fn=HybridStrategy::compare_and_swap+ArcSwapAny::compare_and_swap
-#[cfg_attr(kani, kani::proof)]
-#[cfg_attr(kani, kani::stub(crate::debt::Debt::pay_all, crate::debt::verif_h::pay_all_stub))]
-#[cfg_attr(kani, kani::stub(crate::debt::LocalNode::with, crate::debt::verif_h::list_h::with_static))]
-#[cfg_attr(kani, kani::stub(crate::debt::Node::get, crate::debt::verif_h::list_h::node_get_unexpected))]
-#[cfg_attr(kani, kani::unwind(12))]
-pub(crate) fn rg_cas_script0() {
-    rg_cas([0, 0], OCC_EMPTY);
-    vcover!("rg_cas_script0_end");
-}
-// @harness name=rg_cas_script1 props=C05,C06 tier=quick flavour=nostd timeout=1800 fn=HybridStrategy::compare_and_swap+ArcSwapAny::compare_and_swap
-#[cfg_attr(kani, kani::proof)]
-#[cfg_attr(kani, kani::stub(crate::debt::Debt::pay_all, crate::debt::verif_h::pay_all_stub))]
-#[cfg_attr(kani, kani::stub(crate::debt::LocalNode::with, crate::debt::verif_h::list_h::with_static))]
-#[cfg_attr(kani, kani::stub(crate::debt::Node::get, crate::debt::verif_h::list_h::node_get_unexpected))]
-#[cfg_attr(kani, kani::unwind(12))]
-pub(crate) fn rg_cas_script1() {
-    rg_cas([1, 0], OCC_EMPTY);
-    vcover!("rg_cas_script1_end");
-}
-// @harness name=rg_cas_script2 props=C05,C06 tier=quick flavour=nostd timeout=1800 fn=HybridStrategy::compare_and_swap+ArcSwapAny::compare_and_swap
-#[cfg_attr(kani, kani::proof)]
-#[cfg_attr(kani, kani::stub(crate::debt::Debt::pay_all, crate::debt::verif_h::pay_all_stub))]
-#[cfg_attr(kani, kani::stub(crate::debt::LocalNode::with, crate::debt::verif_h::list_h::with_static))]
-#[cfg_attr(kani, kani::stub(crate::debt::Node::get, crate::debt::verif_h::list_h::node_get_unexpected))]
-#[cfg_attr(kani, kani::unwind(12))]
-pub(crate) fn rg_cas_script2() {
-    rg_cas([2, 0], OCC_EMPTY);
-    vcover!("rg_cas_script2_end");
-}
-// @harness name=rg_cas_script3 props=C05,C06 tier=thorough flavour=nostd timeout=1800 fn=HybridStrategy::compare_and_swap+ArcSwapAny::compare_and_swap
-#[cfg_attr(kani, kani::proof)]
-#[cfg_attr(kani, kani::stub(crate::debt::Debt::pay_all, crate::debt::verif_h::pay_all_stub))]
-#[cfg_attr(kani, kani::stub(crate::debt::LocalNode::with, crate::debt::verif_h::list_h::with_static))]
-#[cfg_attr(kani, kani::stub(crate::debt::Node::get, crate::debt::verif_h::list_h::node_get_unexpected))]
-#[cfg_attr(kani, kani::unwind(12))]
-pub(crate) fn rg_cas_script3() {
-    rg_cas([1, 0], OCC_FULL);
-    vcover!("rg_cas_script3_end");
-}
-// @harness name=rg_cas_script4 props=C05,C06 tier=thorough flavour=nostd timeout=1800 fn=HybridStrategy::compare_and_swap+ArcSwapAny::compare_and_swap
-#[cfg_attr(kani, kani::proof)]
-#[cfg_attr(kani, kani::stub(crate::debt::Debt::pay_all, crate::debt::verif_h::pay_all_stub))]
-#[cfg_attr(kani, kani::stub(crate::debt::LocalNode::with, crate::debt::verif_h::list_h::with_static))]
-#[cfg_attr(kani, kani::stub(crate::debt::Node::get, crate::debt::verif_h::list_h::node_get_unexpected))]
-#[cfg_attr(kani, kani::unwind(12))]
-pub(crate) fn rg_cas_script4() {
-    rg_cas([2, 0], OCC_FULL);
-    vcover!("rg_cas_script4_end");
-}
-// @harness name=rg_rcu_script0 props=C06 tier=thorough flavour=nostd timeout=1800 fn=ArcSwapAny::rcu+ArcSwapAny::compare_and_swap
-#[cfg_attr(kani, kani::proof)]
-#[cfg_attr(kani, kani::stub(crate::debt::Debt::pay_all, crate::debt::verif_h::pay_all_stub))]
-#[cfg_attr(kani, kani::stub(crate::debt::LocalNode::with, crate::debt::verif_h::list_h::with_static))]
-#[cfg_attr(kani, kani::stub(crate::debt::Node::get, crate::debt::verif_h::list_h::node_get_unexpected))]
-#[cfg_attr(kani, kani::unwind(12))]
-pub(crate) fn rg_rcu_script0() {
-    rg_rcu([0, 0], OCC_EMPTY);
-    vcover!("rg_rcu_script0_end");
-}
-// @harness name=rg_rcu_script1 props=C06 tier=quick flavour=nostd timeout=1800 fn=ArcSwapAny::rcu+ArcSwapAny::compare_and_swap
-#[cfg_attr(kani, kani::proof)]
-#[cfg_attr(kani, kani::stub(crate::debt::Debt::pay_all, crate::debt::verif_h::pay_all_stub))]
-#[cfg_attr(kani, kani::stub(crate::debt::LocalNode::with, crate::debt::verif_h::list_h::with_static))]
-#[cfg_attr(kani, kani::stub(crate::debt::Node::get, crate::debt::verif_h::list_h::node_get_unexpected))]
-#[cfg_attr(kani, kani::unwind(12))]
-pub(crate) fn rg_rcu_script1() {
-    rg_rcu([2, 0], OCC_EMPTY);
-    vcover!("rg_rcu_script1_end");
-}
-// @harness name=rg_rcu_script2 props=C06 tier=quick flavour=nostd timeout=1800 fn=ArcSwapAny::rcu+ArcSwapAny::compare_and_swap
-#[cfg_attr(kani, kani::proof)]
-#[cfg_attr(kani, kani::stub(crate::debt::Debt::pay_all, crate::debt::verif_h::pay_all_stub))]
-#[cfg_attr(kani, kani::stub(crate::debt::LocalNode::with, crate::debt::verif_h::list_h::with_static))]
-#[cfg_attr(kani, kani::stub(crate::debt::Node::get, crate::debt::verif_h::list_h::node_get_unexpected))]
-#[cfg_attr(kani, kani::unwind(12))]
-pub(crate) fn rg_rcu_script2() {
-    rg_rcu([1, 0], OCC_EMPTY);
-    vcover!("rg_rcu_script2_end");
-}
-// @harness name=rg_rcu_script3 props=C06 tier=quick flavour=nostd timeout=1800 fn=ArcSwapAny::rcu+ArcSwapAny::compare_and_swap
-#[cfg_attr(kani, kani::proof)]
-#[cfg_attr(kani, kani::stub(crate::debt::Debt::pay_all, crate::debt::verif_h::pay_all_stub))]
-#[cfg_attr(kani, kani::stub(crate::debt::LocalNode::with, crate::debt::verif_h::list_h::with_static))]
-#[cfg_attr(kani, kani::stub(crate::debt::Node::get, crate::debt::verif_h::list_h::node_get_unexpected))]
-#[cfg_attr(kani, kani::unwind(12))]
-pub(crate) fn rg_rcu_script3() {
-    rg_rcu([1, 1], OCC_EMPTY);
-    vcover!("rg_rcu_script3_end");
-}
-// @harness name=rg_rcu_script4 props=C06 tier=thorough flavour=nostd timeout=1800 fn=ArcSwapAny::rcu+ArcSwapAny::compare_and_swap
-#[cfg_attr(kani, kani::proof)]
-#[cfg_attr(kani, kani::stub(crate::debt::Debt::pay_all, crate::debt::verif_h::pay_all_stub))]
-#[cfg_attr(kani, kani::stub(crate::debt::LocalNode::with, crate::debt::verif_h::list_h::with_static))]
-#[cfg_attr(kani, kani::stub(crate::debt::Node::get, crate::debt::verif_h::list_h::node_get_unexpected))]
-#[cfg_attr(kani, kani::unwind(12))]
-pub(crate) fn rg_rcu_script4() {
-    rg_rcu([1, 2], OCC_FULL);
-    vcover!("rg_rcu_script4_end");
-}
 
 
+// @harness name=rg_cas_none props=C05,C06,C04 tier=thorough flavour=nostd timeout=1800 fn=HybridStrategy::compare_and_swap+ArcSwapAny::compare_and_swap
+#[cfg_attr(kani, kani::proof)]
+#[cfg_attr(kani, kani::stub(crate::debt::Debt::pay_all, crate::debt::verif_h::pay_all_stub))]
+#[cfg_attr(kani, kani::stub(crate::debt::LocalNode::with, crate::debt::verif_h::list_h::with_static))]
+#[cfg_attr(kani, kani::stub(crate::debt::Node::get, crate::debt::verif_h::list_h::node_get_unexpected))]
+#[cfg_attr(kani, kani::unwind(12))]
+pub(crate) fn rg_cas_none() {
+    rg_cas(5, Script { at_access: [0, 0, 0, 0, 0, 0], at_cas: [0, 0], after_cas: [0, 0], at_load: [0; 4] }, OCC_EMPTY);
+    vcover!("rg_cas_none_end");
+}
+// @harness name=rg_cas_lost props=C05,C06,C04 tier=quick flavour=nostd timeout=1800 fn=HybridStrategy::compare_and_swap+ArcSwapAny::compare_and_swap
+#[cfg_attr(kani, kani::proof)]
+#[cfg_attr(kani, kani::stub(crate::debt::Debt::pay_all, crate::debt::verif_h::pay_all_stub))]
+#[cfg_attr(kani, kani::stub(crate::debt::LocalNode::with, crate::debt::verif_h::list_h::with_static))]
+#[cfg_attr(kani, kani::stub(crate::debt::Node::get, crate::debt::verif_h::list_h::node_get_unexpected))]
+#[cfg_attr(kani, kani::unwind(12))]
+pub(crate) fn rg_cas_lost() {
+    rg_cas(5, Script { at_access: [0, 0, 0, 0, 0, 0], at_cas: [2, 0], after_cas: [0, 0], at_load: [0; 4] }, OCC_EMPTY);
+    vcover!("rg_cas_lost_end");
+}
+// @harness name=rg_cas_aba props=C05,C06,C04 tier=quick flavour=nostd timeout=1800 fn=HybridStrategy::compare_and_swap+ArcSwapAny::compare_and_swap
+#[cfg_attr(kani, kani::proof)]
+#[cfg_attr(kani, kani::stub(crate::debt::Debt::pay_all, crate::debt::verif_h::pay_all_stub))]
+#[cfg_attr(kani, kani::stub(crate::debt::LocalNode::with, crate::debt::verif_h::list_h::with_static))]
+#[cfg_attr(kani, kani::stub(crate::debt::Node::get, crate::debt::verif_h::list_h::node_get_unexpected))]
+#[cfg_attr(kani, kani::unwind(12))]
+pub(crate) fn rg_cas_aba() {
+    rg_cas(5, Script { at_access: [0, 0, 0, 0, 0, 0], at_cas: [9, 0], after_cas: [0, 0], at_load: [0; 4] }, OCC_EMPTY);
+    vcover!("rg_cas_aba_end");
+}
+// @harness name=rg_cas_lost_then_restored props=C05,C06,C04 tier=quick flavour=nostd timeout=1800 fn=HybridStrategy::compare_and_swap+ArcSwapAny::compare_and_swap
+#[cfg_attr(kani, kani::proof)]
+#[cfg_attr(kani, kani::stub(crate::debt::Debt::pay_all, crate::debt::verif_h::pay_all_stub))]
+#[cfg_attr(kani, kani::stub(crate::debt::LocalNode::with, crate::debt::verif_h::list_h::with_static))]
+#[cfg_attr(kani, kani::stub(crate::debt::Node::get, crate::debt::verif_h::list_h::node_get_unexpected))]
+#[cfg_attr(kani, kani::unwind(12))]
+pub(crate) fn rg_cas_lost_then_restored() {
+    rg_cas(5, Script { at_access: [0, 0, 0, 0, 0, 0], at_cas: [2, 0], after_cas: [1, 0], at_load: [0; 4] }, OCC_EMPTY);
+    vcover!("rg_cas_lost_then_restored_end");
+}
+// @harness name=rg_cas_restored_after_first_read props=C05,C06,C04 tier=quick flavour=nostd timeout=1800 fn=HybridStrategy::compare_and_swap+ArcSwapAny::compare_and_swap
+#[cfg_attr(kani, kani::proof)]
+#[cfg_attr(kani, kani::stub(crate::debt::Debt::pay_all, crate::debt::verif_h::pay_all_stub))]
+#[cfg_attr(kani, kani::stub(crate::debt::LocalNode::with, crate::debt::verif_h::list_h::with_static))]
+#[cfg_attr(kani, kani::stub(crate::debt::Node::get, crate::debt::verif_h::list_h::node_get_unexpected))]
+#[cfg_attr(kani, kani::unwind(12))]
+pub(crate) fn rg_cas_restored_after_first_read() {
+    rg_cas(4, Script { at_access: [0, 2, 0, 0, 0, 0], at_cas: [0, 0], after_cas: [0, 0], at_load: [0; 4] }, OCC_EMPTY);
+    vcover!("rg_cas_restored_after_first_read_end");
+}
+// @harness name=rg_cas_lost_twice props=C05,C06,C04 tier=thorough flavour=nostd timeout=1800 fn=HybridStrategy::compare_and_swap+ArcSwapAny::compare_and_swap
+#[cfg_attr(kani, kani::proof)]
+#[cfg_attr(kani, kani::stub(crate::debt::Debt::pay_all, crate::debt::verif_h::pay_all_stub))]
+#[cfg_attr(kani, kani::stub(crate::debt::LocalNode::with, crate::debt::verif_h::list_h::with_static))]
+#[cfg_attr(kani, kani::stub(crate::debt::Node::get, crate::debt::verif_h::list_h::node_get_unexpected))]
+#[cfg_attr(kani, kani::unwind(12))]
+pub(crate) fn rg_cas_lost_twice() {
+    rg_cas(5, Script { at_access: [0, 0, 0, 0, 0, 0], at_cas: [2, 2], after_cas: [1, 0], at_load: [0; 4] }, OCC_EMPTY);
+    vcover!("rg_cas_lost_twice_end");
+}
+// @harness name=rg_cas_lost_then_restored_full props=C05,C06,C04 tier=thorough flavour=nostd timeout=1800 fn=HybridStrategy::compare_and_swap+ArcSwapAny::compare_and_swap
+#[cfg_attr(kani, kani::proof)]
+#[cfg_attr(kani, kani::stub(crate::debt::Debt::pay_all, crate::debt::verif_h::pay_all_stub))]
+#[cfg_attr(kani, kani::stub(crate::debt::LocalNode::with, crate::debt::verif_h::list_h::with_static))]
+#[cfg_attr(kani, kani::stub(crate::debt::Node::get, crate::debt::verif_h::list_h::node_get_unexpected))]
+#[cfg_attr(kani, kani::unwind(12))]
+pub(crate) fn rg_cas_lost_then_restored_full() {
+    rg_cas(5, Script { at_access: [0, 0, 0, 0, 0, 0], at_cas: [2, 0], after_cas: [1, 0], at_load: [0; 4] }, OCC_FULL);
+    vcover!("rg_cas_lost_then_restored_full_end");
+}
+// @harness name=rg_rcu_aba props=C06 tier=quick flavour=nostd timeout=1800 fn=ArcSwapAny::rcu+ArcSwapAny::compare_and_swap
+#[cfg_attr(kani, kani::proof)]
+#[cfg_attr(kani, kani::stub(crate::debt::Debt::pay_all, crate::debt::verif_h::pay_all_stub))]
+#[cfg_attr(kani, kani::stub(crate::debt::LocalNode::with, crate::debt::verif_h::list_h::with_static))]
+#[cfg_attr(kani, kani::stub(crate::debt::Node::get, crate::debt::verif_h::list_h::node_get_unexpected))]
+#[cfg_attr(kani, kani::unwind(12))]
+pub(crate) fn rg_rcu_aba() {
+    rg_rcu(Script { at_access: [0, 0, 0, 0, 0, 0], at_cas: [9, 0], after_cas: [0, 0], at_load: [0; 4] }, OCC_EMPTY);
+    vcover!("rg_rcu_aba_end");
+}
+// @harness name=rg_rcu_lost props=C06 tier=quick flavour=nostd timeout=1800 fn=ArcSwapAny::rcu+ArcSwapAny::compare_and_swap
+#[cfg_attr(kani, kani::proof)]
+#[cfg_attr(kani, kani::stub(crate::debt::Debt::pay_all, crate::debt::verif_h::pay_all_stub))]
+#[cfg_attr(kani, kani::stub(crate::debt::LocalNode::with, crate::debt::verif_h::list_h::with_static))]
+#[cfg_attr(kani, kani::stub(crate::debt::Node::get, crate::debt::verif_h::list_h::node_get_unexpected))]
+#[cfg_attr(kani, kani::unwind(12))]
+pub(crate) fn rg_rcu_lost() {
+    rg_rcu(Script { at_access: [0, 0, 0, 0, 0, 0], at_cas: [2, 0], after_cas: [0, 0], at_load: [0; 4] }, OCC_EMPTY);
+    vcover!("rg_rcu_lost_end");
+}
+// @harness name=rg_rcu_lost_then_restored props=C06 tier=quick flavour=nostd timeout=1800 fn=ArcSwapAny::rcu+ArcSwapAny::compare_and_swap
+#[cfg_attr(kani, kani::proof)]
+#[cfg_attr(kani, kani::stub(crate::debt::Debt::pay_all, crate::debt::verif_h::pay_all_stub))]
+#[cfg_attr(kani, kani::stub(crate::debt::LocalNode::with, crate::debt::verif_h::list_h::with_static))]
+#[cfg_attr(kani, kani::stub(crate::debt::Node::get, crate::debt::verif_h::list_h::node_get_unexpected))]
+#[cfg_attr(kani, kani::unwind(12))]
+pub(crate) fn rg_rcu_lost_then_restored() {
+    rg_rcu(Script { at_access: [0, 0, 0, 0, 0, 0], at_cas: [2, 0], after_cas: [1, 0], at_load: [0; 4] }, OCC_EMPTY);
+    vcover!("rg_rcu_lost_then_restored_end");
+}
+// @harness name=rg_rcu_lost_twice props=C06 tier=thorough flavour=nostd timeout=1800 fn=ArcSwapAny::rcu+ArcSwapAny::compare_and_swap
+#[cfg_attr(kani, kani::proof)]
+#[cfg_attr(kani, kani::stub(crate::debt::Debt::pay_all, crate::debt::verif_h::pay_all_stub))]
+#[cfg_attr(kani, kani::stub(crate::debt::LocalNode::with, crate::debt::verif_h::list_h::with_static))]
+#[cfg_attr(kani, kani::stub(crate::debt::Node::get, crate::debt::verif_h::list_h::node_get_unexpected))]
+#[cfg_attr(kani, kani::unwind(12))]
+pub(crate) fn rg_rcu_lost_twice() {
+    rg_rcu(Script { at_access: [0, 0, 0, 0, 0, 0], at_cas: [2, 3], after_cas: [0, 0], at_load: [0; 4] }, OCC_EMPTY);
+    vcover!("rg_rcu_lost_twice_end");
+}
+
+// C03 / C09 – a store while TWO foreign readers of this container are parked inside their
+// read-intent windows and the writer's own thread holds 8 guards; another writer changes the stored
+// value between the two hand-overs. Each reader must be handed a value that was stored at or after
+// the moment the writer looked at it – in particular the second one gets the value stored *now*,
+// not a copy of what was loaded for the first one.
+// @harness name=solo_store_helps_two_readers props=C03,C09,C12 tier=quick flavour=nostd timeout=2400 fn=ArcSwapAny::store+HybridStrategy::wait_for_readers+Debt::pay_all+helping::Slots::help
+#[cfg_attr(kani, kani::proof)]
+#[cfg_attr(kani, kani::stub(crate::debt::Node::traverse, crate::debt::verif_h::list_h::traverse_unrolled3))]
+#[cfg_attr(kani, kani::stub(crate::debt::LocalNode::with, crate::debt::verif_h::list_h::with_static))]
+#[cfg_attr(kani, kani::stub(crate::debt::Node::get, crate::debt::verif_h::list_h::node_get_unexpected))]
+#[cfg_attr(kani, kani::unwind(12))]
+pub(crate) fn solo_store_helps_two_readers() {
+    let (s, _pre, _mine) = setup_occ::<DefaultConfig>(0, OCC_FULL);
+    // list order: reader_b -> reader_a -> mine
+    let reader_a = list_h::fresh_node();
+    let reader_b = list_h::fresh_node();
+    let sa = storage_addr(&s);
+    list_h::poke_active_addr(reader_a, sa);
+    list_h::poke_control(reader_a, 8 | helping_h::C_GEN_TAG);
+    list_h::poke_active_addr(reader_b, sa);
+    list_h::poke_control(reader_b, 16 | helping_h::C_GEN_TAG);
+    // the writer stores object 1; before the third load of the storage by the writer (= the load it
+    // makes for the second reader it meets) another writer stores object 2
+    unsafe { SCRIPT = Script { at_access: [0; 6], at_cas: [0; 2], after_cas: [0; 2], at_load: [0, 0, 3, 0] } };
+    wenv_install(&s, 1);
+    s.store(fresh_handle(1));
+    hooks_off();
+    let vb = list_h::view(reader_b);
+    let va = list_h::view(reader_a);
+    vassert!(vb.helping.control & helping_h::C_TAG_MASK == helping_h::C_REPL_TAG && va.helping.control & helping_h::C_TAG_MASK == helping_h::C_REPL_TAG, "writer_helps_both_parked_readers");
+    let first = helping_h::handover_cell(vb.helping.control & !helping_h::C_TAG_MASK).raw().load(core::sync::atomic::Ordering::SeqCst);
+    let second = helping_h::handover_cell(va.helping.control & !helping_h::C_TAG_MASK).raw().load(core::sync::atomic::Ordering::SeqCst);
+    vassert!(first == model::addr(1), "first_reader_is_handed_the_value_stored_at_that_time");
+    vassert!(second == model::addr(2), "second_reader_is_handed_the_value_stored_now_not_a_cached_one");
+    vassert!(model::steps() <= 128, "writer_finishes_in_bounded_own_steps");
+    mem::forget(s);
+    vcover!("solo_store_helps_two_readers_end");
+}
